@@ -24,6 +24,8 @@ def gen(seed, index):
     t = G.tree(kind=rng.choice(["S", "S", "S", "P", "P", "L", None]))
     if rng.random() < 0.2:
         t = share_leaves(rng, t)
+    elif rng.random() < 0.08:
+        t = share_container(rng, t)
     d = g.dur(t)
     pool = [x for x in g.interesting_times(rng, t) if 0 <= x <= d] or [0]
     k = min(len(pool), rng.choice([1, 1, 2, 2, 3, 4]))
@@ -70,6 +72,20 @@ def share_leaves(rng, t):
     for other in rng.sample(leaves, min(len(leaves), rng.randint(1, 3))):
         other[1], other[2] = src[1], src[2]
     return t
+
+
+def share_container(rng, t):
+    """shared reference stream for sub-containers: one nested container object sits at two or three positions of a
+    sequence (a motif used several times: Consecution([motif, motif]), [bar] * 3); the tag >= 1000 marks it for the runner"""
+    import copy as _copy
+    G2 = g.G(rng, tags=False, tempi=False)
+    motif = ["S", 1000 + rng.randint(1, 9), 0] + [G2.leaf() for _ in range(rng.randint(1, 3))]
+    for k_, c in enumerate(motif[3:]):
+        c[2] = 500 + k_
+    root = t if t[0] == "S" else ["S", 0, 0, t]
+    for _ in range(rng.randint(2, 3)):
+        root.insert(rng.randint(3, len(root)), _copy.deepcopy(motif))
+    return root
 
 
 def compare(case, mo, io):
